@@ -243,13 +243,13 @@ func TestVerifBounded_C07_Invalidation(t *testing.T) {
 		ev.Event.(*replication.RowsEvent).Table.Table = []byte("c13")
 		events <- ev
 		processed := false
-		for i := 0; i < 400 && !processed; i++ {
+		for i := 0; i < 5000 && !processed; i++ {
 			time.Sleep(time.Millisecond)
 			processed = sentinel.resource.Invalidated()
 		}
 		what := fmt.Sprintf("%s before=%v after=%v (typed=%v)", c.kind, c07Id(c.before), c07Id(c.after), typed)
 		if !processed {
-			fail(what, "the event was not delivered to a live query without filter on the table within 400 ms")
+			fail(what, "the event was not delivered to a live query without filter on the table within 5 s")
 		} else {
 			time.Sleep(3 * time.Millisecond) // invalidations are started as goroutines by processBinlog
 			for _, l := range lives {
